@@ -319,7 +319,7 @@ impl<T: AsRef<[u8]>> Packet<T> {
                 }
                 super::rpl::RplControlMessage::DestinationAdvertisementObjectAck => {
                     // TODO(thvdveld): replace magic number
-                    if len < 8 || (self.dao_dodag_id_present() && len < 24) {
+                    if len < 8 || (self.dao_ack_dodag_id_present() && len < 24) {
                         return Err(Error);
                     }
                 }
